@@ -284,6 +284,42 @@ def r11h(ctx, rep, rule="R11h"):
                      "multi-byte character panics)" % sh[:120], [t["loc"]])
 
 
+def r11i(ctx, rep, rule="R11i"):
+    """a number never swallows a comment start when it turns into a symbol"""
+    from .. import shapes
+    facts = ctx["facts"]
+    rep.rule(rule, "a token that began as a number ends at `;`: this lexer counts `;` among the identifier characters (hex escapes "
+             "in symbol names end with it), so wherever a scanner loop downgrades a number to a symbol because the next character "
+             "is an identifier character, the downgrade excludes `;` (as scan_number does). Otherwise `.5;comment (` is one "
+             "symbol token up to the blank, the comment's text is lexed as code and its brackets take part in nesting.")
+    n = 0
+    for p, f in sorted(facts.fns.items()):
+        if not p.startswith("marwood::lex::") or "::tests::" in p:
+            continue
+        in_loop = set()
+        for src, h in f.back_edges():
+            in_loop |= (f.reach_from(h) & f.reach_back(src)) | {h, src}
+        k = 0
+        for bb, j, st in f.stmts():
+            rv = st["rv"]
+            if not (rv["k"] == "agg" and (rv.get("adt") or "").endswith("lex::TokenType") and rv.get("variant") == "Symbol" and bb in in_loop):
+                continue
+            g = shapes.guard_shapes(f, bb, None, 3)
+            ident = [x for x in g if x.startswith("lex::is_subsequent_identifier(") and x.endswith("=T")]
+            if not ident:
+                continue
+            n += 1
+            k += 1
+            who = ident[0][len("lex::is_subsequent_identifier("):-3]
+            excl = any(x == "(Ne %s c:59)=T" % who or x == "(Eq %s c:59)=F" % who for x in g)
+            key = "%s|%s|downgrade#%d" % (rule, f.short, k)
+            (rep.ok if excl else rep.fail)(
+                rule, key, "%s turns a number into a symbol on an identifier character other than `;`" % f.short if excl else
+                "%s turns a number into a symbol on any identifier character, `;` included: the comment start is swallowed into "
+                "the token and the rest of the line is lexed as code" % f.short, [st["loc"]])
+    rep.floor(rule, "number-to-symbol downgrades on identifier characters", n, 1)
+
+
 def run(ctx, rep):
     r11a(ctx, rep)
     r11b(ctx, rep)
@@ -295,6 +331,7 @@ def run(ctx, rep):
     r11e(ctx, rep)
     r11g(ctx, rep)
     r11h(ctx, rep)
+    r11i(ctx, rep)
     from . import units
     units.r15a(ctx, rep, rule="R11d", scope=("marwood::lex::", "marwood::parse::", "marwood::syntax::"))
     rep.rules["R11d"] = "span units: " + rep.rules["R11d"]
